@@ -289,6 +289,7 @@ def run(c, prog):
     from . import C02
     C02.rule_twopass(core.Alias(c, "C05"), prog)     # `null` iff empty reference; forward references; dictionary defines every hash used
     C02.rule_name(core.Alias(c, "C05"), prog)
+    common.rule_writer_total(core.Alias(c, "C05"), prog, "C02.total", "xml")     # a value the writer aborts on has no document at all
     from . import C02_type
     from . import C02_tok
     C02_tok.run(core.Alias(c, "C05"), prog)     # token-stream types: separator, piece order
